@@ -916,7 +916,11 @@ def main():
     C.emit({'evaluations': evals, 'distinct_nontrivial': len(distinct),
             'rule': 'generated trees x prior Manifest states %s x 0..2 edits x hash sets x sort; update+save through the library, '
                     'then independent describes_exactly oracle, fresh verify, untouched non-Manifest files, preserved DIST/IGNORE/TIMESTAMP, '
-                    'second-run idempotence; canonical-bytes under shuffled scandir and permuted prior entries; watermark cases at size-1/size/size+1' % PRIOR,
+                    'second-run idempotence; scenarios: prefix-named sibling directories under both listing orders, Manifests of one directory in a reference chain, '
+                    'duplicates with different hash sets (lookups then a save elsewhere; update with the union), dangling symlink in place of a listed file, '
+                    'a directory reachable through two paths, directories named like a compression suffix; sub-directory updates (look-alike names, TIMESTAMP, '
+                    'stale sibling sub-Manifest); canonical-bytes under shuffled scandir and permuted prior entries; watermark cases at size-1/size/size+1, '
+                    'explicit watermarks under each profile' % PRIOR,
             'samples': samples, 'violations': uniq, 'all_violation_count': len(viol), 'refused_updates': refused,
             'wall_s': time.time() - t0})
 
